@@ -91,6 +91,15 @@ Notation "x <- p ;; q" := (pbind p (fun x => q)) (at level 61, p at next level, 
 
 Definition lenZ {A} (l : list A) : Z := Z.of_nat (length l).
 
+(* the first n elements and the remainder, [None] when there are fewer than n;
+   walks at most min(n, length l) steps (n may be as large as 2^63) *)
+Fixpoint split_at (l : list N) (n : N) (acc : list N) : option (list N * list N) :=
+  if n =? 0 then Some (rev' acc, l)
+  else match l with
+       | [] => None
+       | x :: t => split_at t (n - 1) (x :: acc)
+       end.
+
 Fixpoint run {A} (p : prog A) (s : st) : res A :=
   match p with
   | PRet a => Ret a s
@@ -114,10 +123,10 @@ Fixpoint run {A} (p : prog A) (s : st) : res A :=
       end
   | PReadN n k =>
       if (n <=? 0)%Z then run (k []) s
-      else if (lenZ (rest s) <? n)%Z
-           then Fail EEofReadN (mkst [] (outr s) (alloc s + N.of_nat (length (rest s))))
-           else let c := Z.to_nat n in
-                run (k (firstn c (rest s))) (mkst (skipn c (rest s)) (outr s) (alloc s + Z.to_N n))
+      else match split_at (rest s) (Z.to_N n) [] with
+           | None => Fail EEofReadN (mkst [] (outr s) (alloc s + N.of_nat (length (rest s))))
+           | Some (bs, r) => run (k bs) (mkst r (outr s) (alloc s + Z.to_N n))
+           end
   | PAlloc n k => run k (mkst (rest s) (outr s) (alloc s + n))
   | PWrite bs k => run k (mkst (rest s) (rev_append bs (outr s)) (alloc s + N.of_nat (length bs)))
   end.
